@@ -201,7 +201,7 @@ def _run(ctx):
                     pass
                 else:
                     raise AnalysisError(f'{f.key}: unknown operation on a pending container: {norm(node)}')
-    ctx.floor('C20.NODROP', 3, n_sites)
+    ctx.floor('C20.NODROP', 2, n_sites)
 
     # the notified set variable must only grow between its creation and the notification
     shr = []
